@@ -1,8 +1,8 @@
 (* polliwog/polyline/_slice_by_plane.py (slice_open_polyline_by_plane),
    polliwog/polyline/_polyline_object.py (Polyline.sliced_by_plane, the closed-polyline roll logic) and
    polliwog/plane/_plane_intersect.py (intersect_segment_with_plane, one segment).
-   Definitions only.  Models the code with fixes/C06-closed-slice.diff (applied in /repo as b8558f7) and
-   fixes/C06-crossing-from-signed-distances.diff: the crossing point is computed from the two signed distances the
+   Definitions only.  Models the code of /repo including the repairs b8558f7 (fixes/C06-closed-slice.diff) and
+   eedfc5c (fixes/C06-crossing-from-signed-distances.diff): the crossing point is computed from the two signed distances the
    vertices were classified with, not by intersect_segment_with_plane (which is still modelled here because the
    correspondence and one traced kernel exercise it directly). *)
 From Coq Require Import ZArith List Bool Arith.
@@ -87,15 +87,14 @@ Section SliceCore.
     | _ => slice_groups (group l)
     end.
 
-  (* Polyline.sliced_by_plane on a closed polyline with more than one vertex: the roll amount.
-     [all_front_exn] is what happens when `vertices_not_in_front[-1]` indexes an empty array. *)
-  Definition closed_roll (all_front_exn : exn) (l : list A) : result Z :=
+  (* Polyline.sliced_by_plane on a closed polyline with more than one vertex: the roll amount. *)
+  Definition closed_roll (l : list A) : result Z :=
     let signs := map sg l in
     let last_in_front := match olast signs with Some s => (s =? 1)%Z | None => false end in
     if last_in_front then
       match olast (flatnonzero (map (fun s => negb (s =? 1)%Z) signs)) with
       | Some k => Ok (- Z.of_nat k)%Z
-      | None => Raise all_front_exn
+      | None => Raise ValueError   (* every vertex in front (b8558f7) *)
       end
     else
       match flatnonzero (map (fun s => (s =? 1)%Z) signs) with
@@ -105,7 +104,7 @@ Section SliceCore.
 
   (* fixed code: roll, then repeat the first working vertex at the end *)
   Definition slice_closed (l : list A) : result (list B) :=
-    rbind (closed_roll ValueError l) (fun k =>
+    rbind (closed_roll l) (fun k =>
       let w := roll l k in slice_core (w ++ firstn 1 w)).
 
   Definition slice_any (closed : bool) (l : list A) : result (list B) :=
@@ -132,7 +131,7 @@ Section Slice.
       else if nltb O (n1 O) t then XNan
       else XPt (vadd O start (vscale O t seg)).
 
-  (* _crossing_point(p, d_p, q, d_q) of _slice_by_plane.py (fixes/C06-crossing-from-signed-distances.diff):
+  (* _crossing_point(p, d_p, q, d_q) of _slice_by_plane.py (/repo eedfc5c):
      p + d_p / (d_p - d_q) * (q - p) with the signed distances the two vertices were classified with.
      The code only calls it with distances of strictly opposite sign; a zero denominator would give a NaN row. *)
   Definition crossing_row (pl : plane F) (a b : vec3 F) : xrow F :=
